@@ -40,6 +40,11 @@ def cases(tier, seed):
         if cfg.get("speed", 1.0) < 1.0 or (cfg["env"] == "cvrptw" and tier != "quick"):
             for r in range(reps):
                 out.append(dict(cfg=cfg, family="gen", B=16, s=rnd.randrange(10**6)))
+    # every fourth case decodes the same instance object twice without cloning it (evaluate a batch, evaluate it again):
+    # the monitors watch the second episode
+    for i, c_ in enumerate(out):
+        if i % 4 == 3:
+            c_["reuse"] = True
     return out
 
 
